@@ -8,6 +8,9 @@ def run(rep, tier, seed):
     # pars() answers each of its three modes from that mode's own memo slot; coordinate accessors agree with .loc
     memo = [s for s in k_cache.specs('C06') if s.name == 'memo.pars' or s.name.startswith('coords.')]
     verify_all(rep, k_bistr.specs('C06') + memo + k_cache.loc_arguments_specs('C06'))
+    k_bistr.units_structural(rep, 'C06')
+    rep.assumptions.append('unit discipline: names following the conventions *col_offset / *colo / *col_delta / dcol* hold '
+                           'byte quantities; lengths of the quote / operator tokens are ASCII')
     rep.assumptions.append('no Python string is longer than sys.maxsize bytes (bound on the values stored in bistr\'s '
                            'fixed-width arrays; the only machine-width arithmetic in the library)')
     sec = native.run('b_read', 'main', {'props': ['C06'], 'tier': tier, 'seed': seed}, timeout=7200)
